@@ -30,22 +30,23 @@ type Rec struct {
 	TimedOut bool
 }
 
-func (r *Rec) add(kind string, format string, a ...any) {
-	r.Effects = append(r.Effects, Effect{kind, fmt.Sprintf(format, a...)})
+func (r *Rec) add(kind string, wire string) {
+	r.Effects = append(r.Effects, Effect{kind, wire})
 }
-func (r *Rec) Print(s string) { r.Out.WriteString(s); r.add("print", "%q", s) }
+func nw(f float64) string { return "n" + FHex(f) }
+func sw(s string) string  { return "s" + SHex(s) }
+func (r *Rec) Print(s string) { r.Out.WriteString(s); r.add("print", "(print "+sw(s)+")") }
 func (r *Rec) Read() string {
+	r.add("read", "(read)")
 	if len(r.Input) == 0 {
-		r.add("read", "EOF")
 		return ""
 	}
 	s := r.Input[0]
 	r.Input = r.Input[1:]
-	r.add("read", "%q", s)
 	return s
 }
-func (r *Rec) Cls()                    { r.add("cls", "") }
-func (r *Rec) Sleep(d time.Duration)   { r.add("sleep", "%d", int64(d)) }
+func (r *Rec) Cls()                       { r.add("cls", "(cls)") }
+func (r *Rec) Sleep(d time.Duration)      { r.add("sleep", fmt.Sprintf("(sleep %d)", int64(d))) }
 func (r *Rec) Yielder() evaluator.Yielder { return r }
 func (r *Rec) Yield() {
 	r.Yields++
@@ -61,34 +62,41 @@ func (r *Rec) Yield() {
 		r.Ev.Stopped = true
 	}
 }
-func (r *Rec) Move(x, y float64)   { r.add("move", "%s %s", FHex(x), FHex(y)) }
-func (r *Rec) Line(x, y float64)   { r.add("line", "%s %s", FHex(x), FHex(y)) }
-func (r *Rec) Rect(x, y float64)   { r.add("rect", "%s %s", FHex(x), FHex(y)) }
-func (r *Rec) Circle(x float64)    { r.add("circle", "%s", FHex(x)) }
-func (r *Rec) Width(x float64)     { r.add("width", "%s", FHex(x)) }
-func (r *Rec) Color(s string)      { r.add("color", "%q", s) }
-func (r *Rec) Clear(s string)      { r.add("clear", "%q", s) }
-func (r *Rec) Stroke(s string)     { r.add("stroke", "%q", s) }
-func (r *Rec) Fill(s string)       { r.add("fill", "%q", s) }
-func (r *Rec) Linecap(s string)    { r.add("linecap", "%q", s) }
-func (r *Rec) Text(s string)       { r.add("text", "%q", s) }
-func (r *Rec) Gridn(u float64, c string) { r.add("gridn", "%s %q", FHex(u), c) }
-func (r *Rec) Dash(seg []float64) {
-	p := make([]string, len(seg))
-	for i, s := range seg {
-		p[i] = FHex(s)
-	}
-	r.add("dash", "%s", strings.Join(p, " "))
+func (r *Rec) gfx(name string, args ...string) {
+	r.add("gfx", "(gfx "+name+" "+strings.Join(args, " ")+")")
 }
-func (r *Rec) Poly(vs [][]float64) {
-	p := make([]string, len(vs))
-	for i, v := range vs {
-		p[i] = FHex(v[0]) + "," + FHex(v[1])
+func (r *Rec) Move(x, y float64)         { r.gfx("move", nw(x), nw(y)) }
+func (r *Rec) Line(x, y float64)         { r.gfx("line", nw(x), nw(y)) }
+func (r *Rec) Rect(x, y float64)         { r.gfx("rect", nw(x), nw(y)) }
+func (r *Rec) Circle(x float64)          { r.gfx("circle", nw(x)) }
+func (r *Rec) Width(x float64)           { r.gfx("width", nw(x)) }
+func (r *Rec) Color(s string)            { r.gfx("color", sw(s)) }
+func (r *Rec) Clear(s string)            { r.gfx("clear", sw(s)) }
+func (r *Rec) Stroke(s string)           { r.gfx("stroke", sw(s)) }
+func (r *Rec) Fill(s string)             { r.gfx("fill", sw(s)) }
+func (r *Rec) Linecap(s string)          { r.gfx("linecap", sw(s)) }
+func (r *Rec) Text(s string)             { r.gfx("text", sw(s)) }
+func (r *Rec) Gridn(u float64, c string) { r.gfx("gridn", nw(u), sw(c)) }
+func nsw(fs []float64) string {
+	p := make([]string, len(fs))
+	for i, f := range fs {
+		p[i] = nw(f)
 	}
-	r.add("poly", "%s", strings.Join(p, " "))
+	if len(p) == 0 {
+		return "(ns )"
+	}
+	return "(ns " + strings.Join(p, " ") + ")"
+}
+func (r *Rec) Dash(seg []float64) { r.gfx("dash", nsw(seg)) }
+func (r *Rec) Poly(vs [][]float64) {
+	var fs []float64
+	for _, v := range vs {
+		fs = append(fs, v[0], v[1])
+	}
+	r.gfx("poly", nsw(fs))
 }
 func (r *Rec) Ellipse(x, y, rx, ry, rot, sa, ea float64) {
-	r.add("ellipse", "%s %s %s %s %s %s %s", FHex(x), FHex(y), FHex(rx), FHex(ry), FHex(rot), FHex(sa), FHex(ea))
+	r.gfx("ellipse", nw(x), nw(y), nw(rx), nw(ry), nw(rot), nw(sa), nw(ea))
 }
 func (r *Rec) Font(props map[string]any) {
 	keys := []string{"family", "size", "weight", "style", "baseline", "align", "letterspacing"}
@@ -97,13 +105,13 @@ func (r *Rec) Font(props map[string]any) {
 		if v, ok := props[k]; ok {
 			switch v := v.(type) {
 			case float64:
-				p = append(p, k+"="+FHex(v))
+				p = append(p, "(ss "+sw(k)+")", "(ns "+nw(v)+")")
 			case string:
-				p = append(p, fmt.Sprintf("%s=%q", k, v))
+				p = append(p, "(ss "+sw(k)+" "+sw(v)+")")
 			}
 		}
 	}
-	r.add("font", "%s", strings.Join(p, " "))
+	r.gfx("font", p...)
 }
 
 // Result of running a program with the real code.
